@@ -253,6 +253,8 @@ def validate_recording(ctx, prop, rec, label):
         # F4 observations (C17 only): report with the narrow signature, keep validating
         for i in (res["f4"] if prop == "C17" else []):
             k, off = _locate(hists, pending, i)
+            if k is not None and hists[k][off].get("e") == "ChainHalt":
+                ctx.cov["f4_chain_halts_observed"] = ctx.cov.get("f4_chain_halts_observed", 0) + 1
             if k is not None and verdict.get(k) != "f4":
                 verdict[k] = "f4"
                 ctx.cov["f4_observations"] = ctx.cov.get("f4_observations", 0) + 1
@@ -264,8 +266,6 @@ def validate_recording(ctx, prop, rec, label):
                            "validator with an empty queue -> LeaderGroupSize 0, IsPoSActive false (on a real chain: the packer "
                            "schedules PoS over an empty leader group, nobody can produce that block)"
                            % (label, k, hists[k][0].get("mode"), hists[k][0].get("seed"), off, ev.get("e"), ev.get("n")), rp)
-            if k is not None and hists[k][off].get("e") == "ChainHalt":
-                ctx.cov["f4_chain_halts_observed"] = ctx.cov.get("f4_chain_halts_observed", 0) + 1
         # deviations that show only in the other property's getters: noted, validation went on with this property's
         diverged = {}
         for i, et, txt in res["other"]:
